@@ -24,6 +24,7 @@ EXPLANATION = (
     "command.execute is reachable from inverter objects only through _read_from_socket (R3); the request is bound to the protocol "
     "object before the transport write, because a failed send calls error_received synchronously (R4). Counter values over "
     "histories and OS behaviour are not decided."
+    ' (R5) no class of the InverterError family is a subclass of an exception class that a handler of the protocol layer catches as a network error (OSError, CancelledError, TimeoutError); call-arity TypeErrors are exception sources; a failure kind that no longer reaches its counting handler in _read_from_socket is a violation.'
 )
 
 DOCUMENTED_EXPLICIT = ("ValueError", "NotImplementedError")
